@@ -5,6 +5,7 @@ import Mitx.Driver.Grade
 import Mitx.Driver.StringG
 import Mitx.Driver.CallState
 import Mitx.Driver.Depend
+import Mitx.Driver.Tol
 open Lean
 
 def dispatch (op : String) (j : Json) : Except String Json :=
@@ -21,6 +22,8 @@ def dispatch (op : String) (j : Json) : Except String Json :=
   | "eval" => Drv.eval j
   | "apply_attempt" => Drv.applyAtt j
   | "depend" => Drv.depend j
+  | "within_tol" => Drv.withinTolOp j
+  | "formula_grade" => Drv.formulaGradeOp j
   | "varlist" => Drv.varList j
   | _ => .error s!"unknown op {op}"
 
